@@ -139,6 +139,11 @@ def gen_text(rng, opts, nlines, eols=("\n",), final_newline=True, secrets=True):
             ln = gen_secret_line(rng, opts, state)
         else:
             ln = gen_plain_line(rng, opts)
+        if state and rng.random() < 0.06:
+            # an ordinary line in which a word reads exactly like a secret seen earlier in the text
+            sec = rng.choice(sorted(s["text"] for s in state.values() if s.get("text") and " " not in s["text"]) or ["x"])
+            if _benign_ok(sec, opts) and len(sec) >= 8 and not sec.startswith("$"):
+                ln = {"kind": "plain", "lead": "", "trail": "", "toks": [["hostname", "benign"], [sec, "benign"], ["exit", "benign"]], "seps": [" ", " ", " "]}
         if out and rng.random() < 0.12:
             # the same line body again, possibly with another terminator
             ln = dict(rng.choice(out))
